@@ -1050,7 +1050,8 @@ class GenericPlainRegistry(Generic[QuantityT, UnitT], metaclass=RegistryMeta):
                 obj2, *contexts, **ctx_kwargs
             )
 
-        return not isinstance(obj2, (self.Quantity, self.Unit))
+        # anything else is a dimensionless number, whatever the other object is
+        return self.Quantity(obj1).is_compatible_with(obj2, *contexts, **ctx_kwargs)
 
     def convert(
         self,
